@@ -68,6 +68,14 @@ func (fx *FuncExec) execCall(fn *ssa.Function, st *State, reach *Term, res ssa.V
 	}
 	switch f := fv.(type) {
 	case VBuiltin:
+		// delete on a map does nothing in the model, but what is deleted can be pinned down: anchors call:delete#k see
+		// the map as arg0 and the key as arg1
+		if f.name == "delete" {
+			if ac := fx.anchorContract(fn); ac != nil {
+				nm, ord := fx.callSiteName(fn, cc, nil)
+				reach = fx.runAnchors(fn, ac, st, reach, fmt.Sprintf("call:%s#%d", nm, ord), append([]Value{}, args...), src)
+			}
+		}
 		r, v := fx.builtin(st, reach, f.name, args, cc, resType, src)
 		setRes(v)
 		return r
@@ -608,6 +616,9 @@ func (fx *FuncExec) callSiteName(fn *ssa.Function, cc *ssa.CallCommon, callee *s
 	key := func(c *ssa.CallCommon) string {
 		if sc := c.StaticCallee(); sc != nil {
 			return shortFuncName(sc)
+		}
+		if bi, ok := c.Value.(*ssa.Builtin); ok {
+			return bi.Name()
 		}
 		if u, ok := c.Value.(*ssa.UnOp); ok {
 			switch x := u.X.(type) {
